@@ -12,6 +12,7 @@ RULE = ("complete enumeration: (platform in asa,ios,nxos) x (version in 0, 12.4,
         "switch. Oracle: frozen Cisco/IANA reference tables (lib/reftables.py) for numbers and membership, "
         "closure name -> number -> rendered text -> number through Port and Ace, vocabulary disjointness. "
         "Non-trivial: a name (not a bare number) is involved; distinct by (platform, version, protocol, name)")
+RULE += ". Directed classes added after the seeded-change rounds: one port in two spellings in a list; numeric protocol 6 / 17 with named ports; the cover test between two entries under all combinations of the numeric switch"
 ASSUMPTIONS = ["lib/reftables.py: keyword -> number facts typed in from the Cisco command references / IANA",
                "names the library knows but the reference does not are counted, never failed"]
 
